@@ -6,7 +6,7 @@ import ast
 from .. import link
 from ..absint import Interp, Observer
 from ..cfg import CFG, ENTRY, EXIT
-from ..core import AnalysisError, names_in, norm, walk_no_nested
+from ..core import AnalysisError, arg_or_kw, names_in, norm, walk_no_nested
 from ..regionmodel import (REGION, SET_MUTATORS, RegionLib, assigns_cache,
                            direct_mutations,
                            is_cache_reset, levelset_owner, linear,
@@ -97,6 +97,14 @@ class R1Obs(Observer):
 
 
 MUTANTS = [
+    ("add_pixels drops pixel identifiers that fail 0 < p",
+     "AegeanTools/regions.py",
+     "        self.pixeldict[depth].update(set(pix))",
+     "        self.pixeldict[depth].update(p for p in pix if 0 < p)",
+     "C08-R11"),
+    ("pixel area taken at nside 2*maxdepth", "AegeanTools/regions.py",
+     "            hp.nside2pixarea(2**self.maxdepth, degrees=degrees)",
+     "            hp.nside2pixarea(2*self.maxdepth, degrees=degrees)", "C08-R8"),
     ("pickling hook that clears the aliased cache", "AegeanTools/regions.py",
      "    @classmethod\n    def load(cls, mimfile):",
      "    def __getstate__(self):\n"
@@ -1376,6 +1384,39 @@ def r8(ctx, ci):
     if flattens:
         ctx.ob("C08-R8", ga, "get_area counts the flattened set", True, {},
                ga.node)
+        # ... and converts the count with the pixel area OF THAT LEVEL:
+        # area = len(flattened) * nside2pixarea(2**self.maxdepth, degrees)
+        from ..core import expand_locals
+        rets = [r for r in walk_no_nested(ga.node)
+                if isinstance(r, ast.Return) and r.value is not None]
+        ok = False
+        why = "no single return value"
+        if len(rets) == 1:
+            v = expand_locals(ga.node, rets[0].value)
+            why = norm(v, 90)
+            if isinstance(v, ast.BinOp) and isinstance(v.op, ast.Mult):
+                parts = [v.left, v.right]
+                cnt = [x for x in parts if isinstance(x, ast.Call) and
+                       norm(x.func) == "len" and any(
+                           isinstance(c, ast.Call) and norm(c.func) in (
+                               "self.get_demoted",)
+                           for c in ast.walk(x))]
+                pa = [x for x in parts if isinstance(x, ast.Call) and
+                      ctx.prog.dotted(ctx.prog.modules[ga.module], x.func)
+                      == "healpy.nside2pixarea"]
+                if len(cnt) == 1 and len(pa) == 1:
+                    ns = arg_or_kw(pa[0], 0, "nside")
+                    dg = arg_or_kw(pa[0], 1, "degrees")
+                    dpar = [p_ for p_ in ga.params if p_ != "self"]
+                    ok = ns is not None and \
+                        norm(ns).replace(" ", "") in (
+                            "2**self.maxdepth", "1<<self.maxdepth") and \
+                        dg is not None and dpar and norm(dg) == dpar[0]
+        ctx.check("C08-R8", ga, "area = count * pixel area of the deepest "
+                  "level", ok, "the number of flattened pixels must be "
+                  "multiplied by healpy.nside2pixarea(2**self.maxdepth, "
+                  "degrees=<the caller's choice>); found %s" % why,
+                  node=rets[0] if rets else ga.node)
         return
     bad = []
     for m, fi in meths.items():
@@ -1508,6 +1549,32 @@ def r11_add(ctx, ci):
                 and levelset_owner(st.target, al) and \
                 names_in(st.value) & derived:
             adds.append(n)
+    # ... ALL of them: the merged collection is the argument itself (or a
+    # plain conversion of it), not a filtered / sliced selection
+    for n_ in adds:
+        st_ = g.stmt[n_]
+        srcs = []
+        for c in ast.walk(st_):
+            if isinstance(c, ast.Call) and \
+                    isinstance(c.func, ast.Attribute) and \
+                    c.func.attr == "update" and c.args:
+                srcs.append(c.args[0])
+        if isinstance(st_, ast.AugAssign):
+            srcs.append(st_.value)
+        for a_ in srcs:
+            filt = [x for x in ast.walk(a_)
+                    if isinstance(x, (ast.GeneratorExp, ast.ListComp,
+                                      ast.SetComp)) and
+                    any(gen.ifs for gen in x.generators) or
+                    isinstance(x, ast.Call) and norm(x.func) == "filter" or
+                    isinstance(x, ast.Subscript) and
+                    names_in(x.value) & derived]
+            ctx.check("C08-R11", fi, "every given pixel is merged: " +
+                      norm(a_, 60), not filt,
+                      "%s passes only a selection of the given pixels on to "
+                      "the level set: valid pixels (e.g. nested pixel 0, "
+                      "which exists at every depth) are silently dropped" %
+                      (norm(filt[0], 60) if filt else ""), node=st_)
     ok = bool(adds) and g.path_avoiding(ENTRY, EXIT, set(adds)) is None
     ctx.check("C08-R11", fi, "pixels are merged into the level set on every "
               "path", ok, "a normal return of add_pixels is reached without "
